@@ -79,6 +79,15 @@ def norm(s):
 
 
 def check_case(case):
+    out = _check_case(case)
+    if 'env:drop-trailer' in (case.get('meta') or {}).get('faults', []):
+        # a set or group left unterminated in mid-file: failures on such inputs are kept apart (own buckets)
+        out.failures = [(b_ + '[unterminated-set-or-group]', d_) for b_, d_ in out.failures]
+        out.classes.append('unterminated-set-or-group')
+    return out
+
+
+def _check_case(case):
     out = core.Outcome()
     text = case['text']
     meta = case.get('meta', {})
@@ -148,7 +157,7 @@ def check_case(case):
             msg = norm(e['msg'])
             if not msg:
                 continue
-            if (e['level'], e['code']) in (('st', '2'), ('gs', '3'), ('isa', '023')):
+            if meta.get('truncated') and (e['level'], e['code']) in (('st', '2'), ('gs', '3'), ('isa', '023')) and msg.startswith('Mandatory segment'):
                 # trailers missing at end of input are listed at the end of the report
                 if not any(msg in w for w in all_err_text):
                     out.fail('missing-trailer-message:%s' % e['level'], '%s error code %s: message %r not in the report' % (e['level'], e['code'], msg[:120]))
